@@ -13,9 +13,11 @@ struct Lattice { int64_t g, step, ox, oy; };
 inline Lattice lattice(bool minStep2 = false) {
   Lattice L;
   L.g = G::range(2, 9);
-  static const std::vector<int64_t> steps = {1, 1, 2, 2, 3, 7, 1000, int64_t(1) << 20, -1};
+  static const std::vector<int64_t> steps = {1, 1, 2, 2, 3, 7, 1000, int64_t(1) << 20, -1, -2, -2};
   L.step = G::oneOf(steps);
   if (L.step == -1) L.step = (int64_t(1) << 58) / L.g;
+  // every power of two (and its neighbours) up to 2^54: edge lengths exactly at the word-size boundaries 2^31, 2^32, ...
+  if (L.step == -2) { L.step = (int64_t(1) << G::range(1, 54)) + G::oneOf(std::vector<int64_t>{0, 0, 0, -1, 1}); if (L.step * L.g > (int64_t(1) << 58)) L.step = (int64_t(1) << 58) / L.g; }
   if (minStep2 && L.step < 2) L.step = 2;
   int64_t span = L.step * L.g;
   int64_t room = (int64_t(1) << 60) - span;
